@@ -15,6 +15,11 @@ def finale(r, want):
             if f is not None and not f[0] and not f[2] and not f[3]:
                 r.do(('poll', s))
                 drained.append(s)
+                for _ in range(6):          # a poll returns at most 16 packets: keep reading while something is queued
+                    g = r.flags().get(s)
+                    if g is None or g[0] or g[2] or g[3] or not g[4]:
+                        break
+                    r.do(('poll', s))
     if 'settle' in want:
         r.do(('adv', I + T + 1))
     if 'sweep' in want:
